@@ -152,10 +152,11 @@ def recordFault (w now : Int) (c : Child) : Child :=
   { c with cf := cf0 + 1, last := now, hist := now :: c.hist }
 
 /-- `restartSubtree` of a leaf whose PreStart succeeds: shutdown when running, init, re-attach,
-    unsuspend, restartCount.Inc, ActorRestarted -/
+    unsuspend, ActorRestarted.  The restart count is snapshotted before the embedded shutdown (whose
+    reset() zeroes it) and stored back + 1 (fix 6e40710) -/
 def restartOne (c : Child) : Child × Bool :=
   let (c1, stopped) := if c.alive then shutdown c else (c, false)
-  ({ c1 with pre := c1.pre + 1, handled := 0, running := true, reg := true, susp := false, rc := c1.rc + 1 }, stopped)
+  ({ c1 with pre := c1.pre + 1, handled := 0, running := true, reg := true, susp := false, rc := c.rc + 1 }, stopped)
 
 /-- group of `handleStopDirective` / `handleRestartDirective` for faulty child `i`:
     `i` itself, plus `tree.siblings(cid)` when the strategy is one-for-all -/
